@@ -82,8 +82,8 @@ class Fixtures:
                         'detail': '%d minimal messages in one read: RecursionError after %d deliveries' % (n, len(p.delivered))}
             return {'reproduced': len(p.delivered) != n, 'input': {'messages_in_one_read': n},
                     'detail': 'delivered %d of %d' % (len(p.delivered), n)}
-        rnd = random.Random(1)
-        for trial in range(400):
+        rnd = random.Random(1 + (model or {}).get('seed', 0) if isinstance(model, dict) else 1)
+        for trial in range((model or {}).get('trials', 400) if isinstance(model, dict) else 400):
             msgs = [self.frame(rnd.choice([b'l', b'B']), rnd.randrange(0, 12),
                                bytes(rnd.choice([13, 10, 0, 108, 66, rnd.randrange(256)]) for _ in range(rnd.randrange(0, 9))))
                     for _ in range(rnd.randrange(1, 6))]
@@ -104,10 +104,52 @@ class Fixtures:
         return {'reproduced': False, 'detail': 'no concrete framing failure in 400 random streams'}
 
 
+def big_joined_read_case():
+    """the read that ends the handshake may carry any amount of message data: the 16 KiB limit is for handshake LINES only"""
+    F = Fixtures()
+    msg = F.frame(b'l', 3, b'payload!')
+    for n in (1, 40, 700):                       # 700 messages are about 25 KiB after the last CRLF of the read
+        p = F.make(authenticated=False)
+        try:
+            p.dataReceived(b'AUTH X\r\nBEGIN\r\n' + msg * n)
+        except Exception as e:
+            return 'handshake end joined with %d messages raised %s: %s' % (n, type(e).__name__, e)
+        if len(p.delivered) != n or p.transport.disconnecting:
+            return 'handshake end joined with %d messages (%d bytes) in one read: %d delivered, connection %s' % (n, len(msg) * n, len(p.delivered), 'closed' if p.transport.disconnecting else 'open')
+    # while a handshake LINE longer than the limit does close, however it is split
+    for cut in (None, 100, 16390):
+        p = F.make(authenticated=False)
+        line = b'AUTH ' + b'x' * 17000 + b'\r\n'
+        if cut is None:
+            p.dataReceived(line)
+        else:
+            p.dataReceived(line[:cut]); p.dataReceived(line[cut:])
+        if not p.transport.disconnecting:
+            return 'a 17 KB handshake line (cut at %r) did not close the connection' % (cut,)
+    return None
+
+
+def run_bounded(tier, seed):
+    import random
+    f = big_joined_read_case()
+    n = 6
+    if not f:
+        r = Fixtures().replay('dataReceived', 'split-independence', {'seed': seed, 'trials': 3000 if tier == 'thorough' else 400})
+        n += 3000 if tier == 'thorough' else 400
+        f = r['detail'] if r['reproduced'] else None
+        inp = r.get('input')
+    else:
+        inp = {'case': 'handshake end joined with binary data'}
+    return {'tool': 'split-independence on the real protocol object: the same stream under random cuts delivers the same messages; joined handshake / large reads',
+            'bound': '%d random streams of 1-5 frames (both byte orders, CR/LF bytes in bodies, with and without a handshake in front) under up to 4 random cuts; handshake end joined with 1 / 40 / 700 messages; 17 KB handshake lines' % (3000 if tier == 'thorough' else 400),
+            'evaluations': n, 'failures': [] if not f else [{'function': 'txdbus.protocol.BasicDBusProtocol.dataReceived', 'clause': 'split-independence', 'input': inp, 'detail': f}]}
+
+
 def build(tier='quick'):
     w = World()
     PC.add(w)
     return Spec('C04', w, make_models, ['txdbus.protocol.BasicDBusProtocol.dataReceived'], replay=replay,
+                bounded=[{'name': 'split-independence', 'run': run_bounded}],
                 trusted=['struct.unpack "<I"/">I" modelled as an uninterpreted function of (byte order, 4 bytes) with range [0, 2^32)',
                          'bytes.split / bytes.join facts of pyvc.models.SplitFacts',
                          'z3 sequence theory; python slices encoded as word equations'],
